@@ -353,6 +353,55 @@ func §E() {
 	}
 }
 `, "iter-in:embedded-field"),
+		func() *e1.Program {
+			p := Raw("cons-api-imported-under-two-names", consumerSrc+`
+type §node struct {
+	leaf int
+	kids ITER2[any]
+}
+
+func §tree(depth int) ITER[any] GEN[any]{
+	YIELD(any(depth))
+	if depth > 0 {
+		YIELD(any(§tree(depth - 1)))
+		var second ITER2[any] = §tree(0)
+		YIELD(any(second))
+	}
+	RETNIL
+}GEN
+func §flatten(it ITER2[any], out *[]int) {
+	for v := range OVER<<it>>OVER {
+		switch x := v.(type) {
+		case int:
+			*out = append(*out, x)
+		case ITER2[any]:
+			§flatten(x, out)
+		}
+	}
+}
+func §first(v any) int {
+	if it, ok := v.(ITER2[int]); ok && it.MoveNext() {
+		return it.Current()
+	}
+	return -1
+}
+func §E() {
+	var out []int
+	§flatten(§tree(2), &out)
+	for _, v := range out {
+		tr.V(1, v)
+	}
+	tr.V(2, §first(any(§src(2, 70))))
+	n := §node{leaf: 1, kids: §tree(1)}
+	var more []int
+	§flatten(n.kids, &more)
+	tr.V(3, len(more))
+}
+`, "iter-api-two-import-names")
+			p.Imports = []string{"co2 github.com/goghcrow/go-co"}
+			p.Isolate = true
+			return p
+		}(),
 		Raw("cons-alias-typed-iterator", consumerSrc+`
 type §ints = ITER[int]
 
